@@ -1,21 +1,21 @@
-\* negative control: seeded model defect "NoWantCheck"; TLC must report WantValidation violated
+\* negative control: the sender leaves out a wanted tip that the receiver holds as a dangling object -> ReceiverComplete violated
 SPECIFICATION Spec
 CONSTANTS
   NC = 2
-  NTP = 3
-  NT = 1
+  NTP = 2
+  NT = 0
   MaxHeads = 2
   MaxWants = 1
   Modes = {"detailed"}
   IncTag = {FALSE}
-  Thin = {FALSE}
-  SFull = {TRUE}
-  Forge = TRUE
+  Thin = {TRUE}
+  SFull = {FALSE}
+  Forge = FALSE
   MaxInVain = 2
   AtomicNeg = TRUE
   PopAny = FALSE
-  MaxDangle = 0
-  Bug = "NoWantCheck"
+  MaxDangle = 1
+  Bug = "SkipPresentWant"
 INVARIANT TypeOK
 INVARIANT Antecedent
 INVARIANT ReceiverComplete
